@@ -303,3 +303,25 @@ def temporal_angles(ctx, dim, given):
             ctx.ensure("plane%s-kept" % (pl,), ctx.eq(out[k], ang[k] if k < given else 0))
     outl = ctools.set_model_angles(dim, ang, latlon=True, temporal=False)
     ctx.ensure("latlon-all-zero", ctx.eq(outl, np.zeros(len(planes))) if len(planes) else ctx.true())
+
+
+@contract(P, "sphere-rotation/chordal-distances-and-kriging-inputs-invariant",
+          functions=["tools/geometric.py:latlon2pos", "krige/base.py:Krige._get_krige_mat", "krige/base.py:Krige._get_krige_vecs"],
+          timeout=60)
+def sphere_rotation(ctx):
+    """a rotation Q of the sphere (Q^T Q = I) leaves the chordal distance of two embedded lat-lon points
+    unchanged; lat-lon kriging without drift sees positions only through these distances (read-set facts in
+    props/C13), hence it is invariant under rotations of the sphere"""
+    lat1, lat2 = ctx.real("lat1", lo=-90, hi=90), ctx.real("lat2", lo=-90, hi=90)
+    lon1, lon2 = ctx.real("lon1", lo=-360, hi=360), ctx.real("lon2", lo=-360, hi=360)
+    R = ctx.real("R", pos=True)
+    ctx.require(ctx.gt(R, 0))
+    p = geo.latlon2pos([[lat1, lat2], [lon1, lon2]], radius=R)
+    d = p[:, 0] - p[:, 1]
+    # every rotation of the sphere is a product of three elementary rotations (SO(3), proved in C12)
+    ang = ctx.reals("q", 3, angle=True)
+    Q = geo.matrix_rotate(3, ang)
+    qd = Q @ d
+    ctx.ensure("rotated-chord^2=chord^2", ctx.eq(sum(x * x for x in qd), sum(x * x for x in d)))
+    qp = Q @ p
+    ctx.ensure("rotated-points-stay-on-the-sphere", ctx.eq(sum(qp[i, 0] * qp[i, 0] for i in range(3)), R * R))
